@@ -201,3 +201,34 @@ fn c08_create_overlapping_the_audio_step_never_panics() {
 	kani::cover!(!created, "w:full-at-create");
 	std::mem::forget(storage); std::mem::forget(controller);
 }
+
+// @h prop=C08,C01 tier=quick kind=main timeout=900
+// @bounds ResourceStorage of capacity 1 through TWO full life cycles (create, handle dropped, audio-side sweep; create again, dropped, sweep): one more removal than the capacity of the queue that carries removed resources back to the gameplay thread. Each creation goes through insert() or through try_reserve() + insert_with_key() (symbolic, as clocks / modulators / listeners / send tracks do)
+// @funcs ResourceController::{insert,try_reserve,insert_with_key,remove_unused,len}, ResourceStorage::remove_and_add
+// @catches the queue of removed resources being drained on only one of the two creation paths: after `capacity` removals the audio thread can no longer hand resources back (panic "unused resource producer is full" in the callback, or dropped resources never freed and creation failing with nothing alive)
+#[kani::proof]
+#[kani::unwind(4)]
+fn c08_two_life_cycles_through_either_creation_path() {
+	let (mut storage, mut controller) = ResourceStorage::<KvRes>::new(1);
+	let mut cycle = 0;
+	while cycle < 2 {
+		let reserve_first: bool = kani::any();
+		assert!(controller.len() == 0, "nothing alive: the slot is free");
+		if reserve_first {
+			let key = match controller.try_reserve() { Ok(k) => k, Err(_) => panic!("creation must succeed while nothing is alive") };
+			controller.insert_with_key(key, KvRes { id: cycle as u8, remove: false });
+		} else {
+			let r = controller.insert(KvRes { id: cycle as u8, remove: false });
+			assert!(r.is_ok(), "creation must succeed while nothing is alive");
+			std::mem::forget(r);
+		}
+		storage.remove_and_add(|x| x.remove); // callback: picked up
+		for (_, res) in &mut storage { res.remove = true; } // handle dropped
+		storage.remove_and_add(|x| x.remove); // next callback: must hand it back without panicking
+		assert!(storage.resources.iter().count() == 0, "a marked resource is gone after the next callback");
+		assert!(controller.len() == 0, "and its slot is free again");
+		cycle += 1;
+	}
+	kani::cover!(true, "witness");
+	std::mem::forget(storage); std::mem::forget(controller);
+}
